@@ -75,16 +75,16 @@ theorem inlNodes_lvl (deeper : Deeper) (j : Nat) (hid0 : findFunc T0 identityOp 
         simp only [instantiate]
         rw [opsAllNodes_append, cloneNodes_ops, hbody, (fwdOuts_syn (lvl T0 j) hidl _ _ _ _).1]; rfl
       obtain ⟨d1, d2, d3, d4⟩ := hd (st.addInlined op (instantiate f attrs (substIns σ ins) st.next).next
-        (instantiate f attrs (substIns σ ins) st.next).bad) _ hinst
+        ((instantiate f attrs (substIns σ ins) st.next).bad || nouts.length != f.outputs.length)) _ hinst
       obtain ⟨k1, k2, k3, k4⟩ := inlNodes_lvl deeper j hid0 hsome ht hd ns
         (deeper (st.addInlined op (instantiate f attrs (substIns σ ins) st.next).next
-          (instantiate f attrs (substIns σ ins) st.next).bad) (instantiate f attrs (substIns σ ins) st.next).nodes).1
+          ((instantiate f attrs (substIns σ ins) st.next).bad || nouts.length != f.outputs.length)) (instantiate f attrs (substIns σ ins) st.next).nodes).1
         (nouts.zip ((instantiate f attrs (substIns σ ins) st.next).outvals.map
           (deeper (st.addInlined op (instantiate f attrs (substIns σ ins) st.next).next
-          (instantiate f attrs (substIns σ ins) st.next).bad) (instantiate f attrs (substIns σ ins) st.next).nodes).2.2.app) ++ σ)
+          ((instantiate f attrs (substIns σ ins) st.next).bad || nouts.length != f.outputs.length)) (instantiate f attrs (substIns σ ins) st.next).nodes).2.2.app) ++ σ)
         (outs.map (fun o => ((nouts.zip ((instantiate f attrs (substIns σ ins) st.next).outvals.map
           (deeper (st.addInlined op (instantiate f attrs (substIns σ ins) st.next).next
-          (instantiate f attrs (substIns σ ins) st.next).bad) (instantiate f attrs (substIns σ ins) st.next).nodes).2.2.app)).lookup o).getD o))
+          ((instantiate f attrs (substIns σ ins) st.next).bad || nouts.length != f.outputs.length)) (instantiate f attrs (substIns σ ins) st.next).nodes).2.2.app)).lookup o).getD o))
         h.2
       refine ⟨by rw [k1, d1]; rfl, by rw [opsAllNodes_append, d2, k2]; rfl, fun o ho => ?_, fun o ho => ?_⟩
       · rcases k3 o ho with h' | h'
